@@ -440,9 +440,18 @@ def run(chk):
                        'document traces are projected on the marker names vma,vmb and characters @,~ (other names do not '
                        'affect the projection)']
     # 1. design + behaviours
-    maxops = 4 if tier == 'quick' else 5
-    mod = mc_module('MC_Context', 'Context', maxops, True)
+    maxops = 4
     cfg_mc = CFG_MC if let_scoped() else CFG_MC.replace('INVARIANT LookupInnermost\n', '')
+    if tier != 'quick':
+        # one operation more: invariants only (printing one behaviour per state at this bound needs > 30 GB in the harness)
+        mod5 = mc_module('MC_Context', 'Context', 5, True)
+        res5 = tlc.run('MC_Context', cfg_text=cfg_mc.replace('INVARIANT EmitState\n', ''), extra_modules={'MC_Context.tla': mod5}, timeout=3400,
+                       heap='12g', want_beh=False)
+        chk.add_tlc(res5, 'mc(MaxOps=5)')
+        if not res5.ok:
+            chk.violation('design:' + ','.join(res5.violated or ['error']),
+                          'TLC found a counterexample in the Context design: %s\n%s' % (res5.violated, res5.trace_text[:3000]))
+    mod = mc_module('MC_Context', 'Context', maxops, True)
     res = tlc.run('MC_Context', cfg_text=cfg_mc, extra_modules={'MC_Context.tla': mod}, coverage=True, timeout=3400,
                   heap='12g')
     chk.add_tlc(res, 'mc+states(MaxOps=%d)' % maxops)
